@@ -251,6 +251,10 @@ pub fn build_sweep(tier: Tier) -> Vec<IoRun> {
             push(&w, scratch(), Pre::Longer(17), PlanSpec::default(), Some(l), &mut runs);
         }
         push(&w, Target::Relative("rel.out".into()), Pre::Absent, PlanSpec::default(), None, &mut runs);
+        // a destination outside the current directory, plain and behind relative symbolic links
+        for pre in [Pre::Absent, Pre::Longer(17), Pre::RelSymlink { dangling: false }, Pre::RelSymlink { dangling: true }, Pre::SymlinkToFile(100), Pre::DanglingSymlink] {
+            push(&w, Target::Sub("sub.out".into()), pre, PlanSpec::default(), None, &mut runs);
+        }
         // debris next to the target: every name pattern, as a longer file, a short file and a directory
         let mk = |w: &Workload, plan: PlanSpec, litter: Vec<Litter>, crash_at: Option<u32>| IoOp {
             kind: w.kind,
